@@ -165,6 +165,11 @@ def cases(tier, seed):
         while ifp * nrand < (i + 1) * nfp:
             ifp += 1
             yield _from_pandas_case(rng)
+        if i % 25 == 0:
+            # CategoricalIndex whose categories are NOT in lexical order: pandas sorts it by category order, the
+            # planner compares labels; observed with a logical step bound (termination facet)
+            yield {"facet": "catidx", "n": rng.choice((4, 5, 6, 8, 12)), "k": rng.choice((2, 3, 4)), "ordered": rng.random() < 0.5,
+                   "dseed": rng.randrange(2 ** 31), "sort": rng.random() < 0.8}
 
 
 SDL_DTYPES = ("int", "int", "float", "str", "ts", "negint", "bool", "td", "uint8", "Int64", "tzts", "cat")
@@ -742,7 +747,57 @@ def _run_from_pandas(case, ctx):
                           "asked %d partitions with %d distinct index values, got %d (reports %d)" % (k, nd, len(parts), ddf.npartitions), **detail)
 
 
+def _run_catidx(case, ctx):
+    import pandas as pd
+
+    import dask.dataframe as dd
+    from dask.dataframe.io import io as ddio
+
+    from vf.mon import steps
+
+    r = random.Random(case["dseed"])
+    cats = ["a", "b", "c", "d"]
+    perm = cats[:]
+    while perm == sorted(perm):
+        r.shuffle(perm)
+    labels = [r.choice(cats) for _ in range(case["n"])]
+    ix = pd.CategoricalIndex(labels, categories=perm, ordered=case["ordered"], name="k")
+    pdf = pd.DataFrame({"v": range(case["n"])}, index=ix)
+    ctx.op("from_pandas:categorical-index")
+    ctx.count("catidx_cases")
+    ctx.sig = ("catidx", tuple(labels), tuple(perm), case["k"], case["ordered"], case["sort"])
+    ctx.nontrivial = True
+    feat = "from_pandas:categorical-index&categories-not-in-lexical-order&sort=%s" % case["sort"]
+    try:
+        with steps.bounded([ddio.sorted_division_locations], 200000):
+            ddf = dd.from_pandas(pdf, npartitions=case["k"], sort=case["sort"])
+            ddf.npartitions            # the divisions are planned lazily
+            got = ddf.compute()
+    except steps.StepBoundExceeded:
+        ctx.violation(feat + ":planner-loops-or-raises", "sorted_division_locations executed more than 200000 lines for %d "
+                      "labels %r (categories %r), npartitions=%d" % (case["n"], labels, perm, case["k"]))
+        return
+    except Exception as ex:  # noqa: BLE001
+        import traceback
+
+        tb = traceback.extract_tb(ex.__traceback__)
+        if isinstance(ex, IndexError) and tb and tb[-1].name == "sorted_division_locations":
+            # the same mechanism (the cursor computed from offsets of a sequence that is not sorted in label order) runs
+            # off the end instead of looping
+            ctx.violation(feat + ":planner-loops-or-raises", "IndexError in sorted_division_locations for labels %r "
+                          "(categories %r), npartitions=%d" % (labels, perm, case["k"]))
+            return
+        ctx.exception(ex, prefix=feat)
+        return
+    exp = pdf.sort_index() if case["sort"] else pdf
+    if sorted(map(tuple, got.reset_index().astype(str).values.tolist())) != sorted(map(tuple, exp.reset_index().astype(str).values.tolist())):
+        ctx.violation(feat + ":rows", "rows differ from the pandas frame")
+    ctx.sample = {"labels": labels, "categories": perm, "npartitions": ddf.npartitions}
+
+
 def run_case(case, ctx):
+    if case["facet"] == "catidx":
+        return _run_catidx(case, ctx)
     if case["facet"] == "quantile":
         _run_quantile(case, ctx)
     elif case["facet"] == "from_pandas":
